@@ -447,7 +447,7 @@ Print Assumptions C03_subject_issuer_faithful.
    its octets (the harness hands exactly these to names.FromRawDN and crypto/x509: case name:coq-encoded) and
    its text; and example_der with written names meets the hypotheses of C03_subject_issuer_faithful *)
 Theorem C03_name_example_meets_hypotheses : name_ok ex_name = true /\ texts_utf8 ex_name = true.
-Proof. exact (conj ex_name_ok ex_name_utf8). Qed.
+Proof. exact ex_name_hyps. Qed.
 Print Assumptions C03_name_example_meets_hypotheses.
 
 Theorem C03_named_certificate_example_meets_hypotheses :
